@@ -105,3 +105,10 @@ Definition graph_json_text_ok (tbl : names) (g : nxg) : bool :=
 Definition ex_names : names :=
   [(P_GraphID, S"GraphID"); (P_NodeID, S"NodeID"); (P_Class, S"Class"); (P_id, S"id"); (P_source, S"source");
    (P_target, S"target"); (10%N, S"Name"); (11%N, S"Détails" ++ [128512%N]); (12%N, S"p"); (13%N, S"q")].
+
+(* example data: a model whose first node carries the opening of the OTHER format in its values *)
+Definition ex_confusing : nxg :=
+  {| g_nodes := [(1%N, [(10%N, PStr (S"<graphml xmlns=""http://graphml.graphdrawing.org/xmlns"">"));
+                        (12%N, PStr (S"<?xml version=""1.0""?>")); (13%N, PStr (S"{""directed"": false, ""nodes"": ["));
+                        (P_GraphID, PStr (S"{")); (P_NodeID, PStr (S"<graphml")); (P_Class, PStr (S"NetworkNode"))])];
+     g_edges := [] |}.
